@@ -3,6 +3,7 @@ package checks
 import (
 	"fmt"
 	"os"
+	"path/filepath"
 	"regexp"
 	"sort"
 	"strings"
@@ -23,10 +24,15 @@ type genCombo struct {
 	formatter string
 	placement string // inpkg-test | inpkg | exttest | separate
 	extraCfg  core.M // additional root-level settings (custom templates)
+	perFile   bool   // one output file (hence one import registry) per interface instead of one per batch
 }
 
 func (g genCombo) String() string {
-	return fmt.Sprintf("%s{%s} %s %s", g.template, g.dataName, g.formatter, g.placement)
+	pf := ""
+	if g.perFile {
+		pf = " file-per-interface"
+	}
+	return fmt.Sprintf("%s{%s} %s %s%s", g.template, g.dataName, g.formatter, g.placement, pf)
 }
 
 func (g genCombo) inPackage() bool { return g.placement == "inpkg-test" || g.placement == "inpkg" }
@@ -87,6 +93,10 @@ func (g genCombo) config(names []string) core.M {
 	case "separate-samename":
 		// another directory whose package happens to have the source package's name
 		cfg["dir"], cfg["pkgname"], cfg["filename"] = "mocks/src", "src", "mocks.go"
+	}
+	if g.perFile {
+		fn := cfg["filename"].(string)
+		cfg["filename"] = strings.Replace(fn, "mocks", "mocks_{{.InterfaceName}}", 1)
 	}
 	for k, v := range g.extraCfg {
 		cfg[k] = v
@@ -182,6 +192,13 @@ func attribute(o *genOutcome, outFile string) (map[string]gocheck.Err, []gocheck
 	by := map[string]gocheck.Err{}
 	var rest []gocheck.Err
 	for _, e := range o.errs {
+		// file-per-interface mode: the file name carries the case
+		if n := caseNameRe.FindString(filepath.Base(e.File)); n != "" {
+			if _, ok := by[n]; !ok {
+				by[n] = e
+			}
+			continue
+		}
 		if e.File != outFile || e.Line <= 0 || e.Line > len(lines) {
 			// an error elsewhere that names a case (e.g. redeclaration reported at the other site)
 			if n := caseNameRe.FindString(e.Msg); n != "" {
@@ -317,6 +334,12 @@ func C01(c *core.Ctx) error {
 		byName[cs.Name] = cs
 	}
 	combos := genCombos(quick)
+	// the same corpus with one output file per interface: every interface starts from an empty import registry
+	for _, t := range []string{"testify", "matryer"} {
+		for _, pl := range []string{"inpkg-test", "separate"} {
+			combos = append(combos, genCombo{template: t, data: core.M{}, formatter: "gofmt", placement: pl, perFile: true})
+		}
+	}
 	knownCase := map[string]bool{} // "<case id>|<template>"
 	for _, k := range c.KnownKeys() {
 		p := strings.SplitN(k, "|", 3)
@@ -460,7 +483,7 @@ func C01(c *core.Ctx) error {
 	c.Ev.Set("failing_case_ids", core.SortedKeys(failingCases))
 	c.Ev.Set("grammar_depth", depth)
 	c.Ev.Set("exhaustive", !c.Expired())
-	c.Ev.Set("rule", "corpus = one interface per case: every type shape of the grammar (24 atoms x 16 constructors to the stated depth) in parameter, result, variadic and mixed position; signature forms; interface forms (embedding, generics with every constraint kind, instantiated generic named types); every identifier of the alphabets (template locals, predeclared names, import names, case twins, non-ASCII) as parameter, result and type-parameter name; identifier x type pairs. Full product template x template-data x formatter x placement (165 combinations; reduced corpus for non-default template-data), each one mockery run over the whole corpus followed by go/packages type checking of the destination package with tests; failures attributed by position, otherwise by bisection; plus 11 go.mod spellings x 2 templates x 4 placements. states = (combination, interface) pairs decided; distinct_nontrivial = interfaces x templates")
+	c.Ev.Set("rule", "corpus = one interface per case: every type shape of the grammar (24 atoms x 16 constructors to the stated depth) in parameter, result, variadic and mixed position; signature forms; interface forms (embedding, generics with every constraint kind, instantiated generic named types); every identifier of the alphabets (template locals, predeclared names, import names, case twins, non-ASCII) as parameter, result and type-parameter name; identifier x type pairs. Full product template x template-data x formatter x placement (165 combinations; reduced corpus for non-default template-data) plus 4 combinations with one output file per interface (fresh import registry per interface), each one mockery run over the whole corpus followed by go/packages type checking of the destination package with tests; failures attributed by position, otherwise by bisection; plus 11 go.mod spellings x 2 templates x 4 placements. states = (combination, interface) pairs decided; distinct_nontrivial = interfaces x templates")
 	c.Ev.Assume("interfaces whose method names collide with the mock's own API and unexported source types in out-of-package placements are outside the guarantee and not generated")
 	return nil
 }
